@@ -408,8 +408,9 @@ def run(ctx):
             add(f'unpairn {n} {vt}', 'err' if got is None else line_vals(got), dict(desc, op=f'UNPAIR {n}'))
             check(f'UNPAIR {n}', 'UNPAIR n', got, got0, ref_unpairn(n, sv))
         # PAIR n on the leaves of this comb
+        # (components taken structurally, not through iter_comb, so that this stream only exercises from_comb)
         if rng.random() < 0.5:
-            items, items0 = list(v.iter_comb()), list(v0.iter_comb())
+            items, items0 = [v.items[0], v.items[1], v], [v0.items[0], v0.items[1], v0]
         else:
             items, items0 = [v.items[0], v.items[1]], [v0.items[0], v0.items[1]]
         n = rng.choice([0, 1, 2, len(items), len(items), len(items) + 1])
